@@ -214,7 +214,7 @@ def finish(prop, mod, tier, seed, specs, results, wall):
                                          "mode": kf.get("mode", "interp")})
     # replays
     replay_paths = []
-    rdir = os.path.join(HERE, "replays", prop)
+    rdir = os.path.join(os.environ.get("TICCMON_REPLAY_DIR") or os.path.join(HERE, "replays"), prop)
     for v in merged["violations"][:20]:
         os.makedirs(rdir, exist_ok=True)
         blob = ser.dumps({"property": prop, "msg": v["msg"], "case": v.get("case"), "mode": v.get("mode", "interp"),
@@ -255,8 +255,9 @@ def finish(prop, mod, tier, seed, specs, results, wall):
         "violations": len(merged["violations"]),
         "verdict": "violated" if merged["violations"] else ("inconclusive" if merged["inconclusive"] else "held_on_observed"),
     }
-    os.makedirs(os.path.join(HERE, "evidence"), exist_ok=True)
-    with open(os.path.join(HERE, "evidence", "%s.json" % prop), "w") as f:
+    evdir = os.environ.get("TICCMON_EVIDENCE_DIR") or os.path.join(HERE, "evidence")
+    os.makedirs(evdir, exist_ok=True)
+    with open(os.path.join(evdir, "%s.json" % prop), "w") as f:
         json.dump(evidence, f, indent=1, sort_keys=True)
         f.write("\n")
 
